@@ -94,6 +94,29 @@ def leak_matrix():
     return out
 
 
+def dead_code_matrix():
+    """names are checked wherever they are written, also in code that can never run: every statement form mentioning an
+    undeclared, out-of-scope or not-yet-declared name, placed behind antwoord / stop / volgende in the same block, must
+    be rejected before any output; the same forms over declared names must be accepted and change nothing"""
+    ctx = [("functie f(p) { stel l = 1; %s; %s }; print(\"uitvoer\"); f(1)", ["antwoord 1", "antwoord"]),
+           ("stel i = 0; stel l = 1; stel p = 2; zolang i < 2 { i += 1; %s; %s }; print(\"uitvoer\"); i", ["stop", "volgende"]),
+           ("functie f(p) { stel l = 1; stel i = 0; zolang i < 2 { i += 1; %s; %s }; i }; print(\"uitvoer\"); f(1)", ["stop", "volgende", "antwoord 5"]),
+           ("{ stel blokvar = 1; }; functie f(p) { stel l = 1; als p > 0 { %s; %s }; 3 }; print(\"uitvoer\"); f(1)", ["antwoord 1"])]
+    dead_bad = ["onbekend", "stel z = onbekend", "onbekend = 1", "print(onbekend)", "{ onbekend }", "functie g() { onbekend }", "als ja { onbekend }",
+                "zolang nee { onbekend }", "[1, onbekend]", "onbekend()", "l[onbekend]", "later; stel later = 1", "blokvar", "stel z = 1; { z; }; zz"]
+    dead_ok = ["l", "p + 1", "stel z = l", "{ stel z = p; z }", "functie g(q) { q }", "l = 5", "print(l)"]
+    out = []
+    for tmpl, jumps in ctx:
+        for j in jumps:
+            for d in dead_bad:
+                out.append(("dead-code-undeclared", tmpl % (j, d)))
+            for d in dead_ok:
+                out.append(("dead-code-declared", tmpl % (j, d)))
+    # a caller's local is not visible in the callee, dead code or not
+    out.append(("dead-code-undeclared", "functie callee() { antwoord 1; van_de_aanroeper }; functie caller() { stel van_de_aanroeper = 2; callee() }; print(\"uitvoer\"); caller()"))
+    return out
+
+
 def rename(src, old, new):
     return re.sub(r"(?<![\w])%s(?![\w])" % re.escape(old), new, src)
 
@@ -116,6 +139,10 @@ def run(res, tier, rng, table_diffs=()):
     for d in directed:
         cases.append(("directed", d))
     cases += leak_matrix()
+    cases += dead_code_matrix()
+    from .. import gen2
+    for _ in range(300 if tier == "quick" else 6000):
+        cases.append(("nested-fn", gen2.nested_fn_program(rng.fork())))
     rs = run_cases(res, "C09", cases)
     # metamorphic, on the implementation alone
     meta = []
